@@ -534,9 +534,13 @@ def main_check(P, argv):
             scns += [l.strip() for l in open(f) if l.strip() and not l.startswith("#")]
         ncorpus = len(scns)
         scns += list(P.generate(a.tier, rng))
-        if broken:  # search mode: thorough budget
+        if broken:  # search mode: thorough budget (capped when started from the quick tier, so that the search stays in minutes)
             if a.tier == "quick":
-                scns += list(P.generate("thorough", rng))
+                extra = list(P.generate("thorough", rng))
+                cap = int(getattr(P, "SEARCH_CAP", 40000))
+                if len(extra) > cap:
+                    extra = rng.sample(extra, cap)
+                scns += extra
     res = decide(P, prop, model, exes, scns, ev, write_replay, viol, known_hits, broken, per_timeout=getattr(P, "PER_TIMEOUT", 20.0))
     if hasattr(P, "evidence_extra"):
         P.evidence_extra(ev["coverage"])
